@@ -21,10 +21,15 @@ def new_graph(directed, removal):
 
 
 # ------------------------------------------------------------------ helpers
+def N(x):
+    """node ids travel through JSON replay files: a list stands for a tuple id"""
+    return tuple(N(y) for y in x) if isinstance(x, list) else x
+
+
 def edges_of(kind, items):
     if kind == 'from':
-        return [tuple(x) for x in items]
-    ns = list(items)
+        return [(N(x[0]), N(x[1])) for x in items]
+    ns = [N(n) for n in items]
     if kind == 'path':
         return list(zip(ns[:-1], ns[1:]))
     if kind == 'star':
@@ -60,7 +65,7 @@ def mismatch(world, what, detail):
 # ------------------------------------------------------------------ add_interaction
 def do_add(world, rep, op):
     g, m = rep.g, rep.m
-    u, v, t, e, sp = op['u'], op['v'], op['t'], op.get('e'), op.get('sp', 'pos')
+    u, v, t, e, sp = N(op['u']), N(op['v']), op['t'], op.get('e'), op.get('sp', 'pos')
     if sp == 'pos':
         args, kw = ((u, v, t) if e is None else (u, v, t, e)), {}
     elif sp == 'kw':
@@ -144,11 +149,11 @@ def do_bulk(world, rep, op):
     edges = edges_of(kind, items)
     if kind == 'from':
         if container == 'list':
-            arg = [tuple(x) for x in items]
+            arg = list(edges)
         elif container == 'tuple3':
-            arg = tuple((x[0], x[1], {}) for x in items)
+            arg = tuple((a, b, {}) for a, b in edges)
         elif container == 'gen':
-            arg = raising_gen([tuple(x) for x in items], after)
+            arg = raising_gen(list(edges), after)
         else:
             raise ValueError(container)
         if form == 'method':
@@ -163,7 +168,7 @@ def do_bulk(world, rep, op):
         if e is not None:
             kw['e'] = e
     else:
-        nodes = list(items) if container != 'gen' else iter(list(items))
+        nodes = [N(n) for n in items] if container != 'gen' else iter([N(n) for n in items])
         if form == 'method':
             fn = getattr(g, 'add_' + kind)
             args, kw = (nodes,), {'t': t}
@@ -237,11 +242,21 @@ def do_node(world, rep, op):
     attrs = copy.deepcopy(op.get('attrs') or {})
     if m.frozen:
         return {'out': 'skipped', 'fault': False, 'cls': 'node', 'keys': []}
+    op = dict(op)
+    if 'n' in op:
+        op['n'] = N(op['n'])
+    if 'ns' in op:
+        op['ns'] = [N(n) for n in op['ns']]
     if rep.shared_attrs and attrs and kind in ('add_node', 'add_nodes_from') and \
             any(n in m.nodes for n in ([op['n']] if kind == 'add_node' else op['ns'])):
         # in-place update of an attribute dict that may be shared with another replica
         # (time_slice shares them; no property promises otherwise)
         return {'out': 'skipped', 'fault': False, 'cls': 'node', 'keys': []}
+    op = dict(op)
+    if 'n' in op:
+        op['n'] = N(op['n'])
+    if 'ns' in op:
+        op['ns'] = [N(n) for n in op['ns']]
     if kind == 'add_node':
         st, r = call(g.add_node, op['n'], **attrs)
         if st == 'ok':
@@ -508,7 +523,7 @@ def do_mutate_attr(world, rep, op):
         return {'out': 'skipped', 'fault': False, 'cls': 'skip', 'keys': []}
     kind = op['kind']
     if kind == 'node_nested':
-        n = op['n']
+        n = N(op['n'])
         if n not in m.nodes:
             return {'out': 'skipped', 'fault': False, 'cls': 'skip', 'keys': []}
         d = dict(g.nodes(data=True))[n]
